@@ -187,7 +187,15 @@ def gen_grid(tier):
             yield {"g": "grid", "cells": [list(c) for c in combo], "dl": dl}
 
 
-SPACE = GenSpace({"pathseq": gen_pathseq, "nest": gen_nest, "legacy": gen_legacy, "forms": gen_forms, "grid": gen_grid}, chunk=200)
+def gen_corpus(tier):
+    """the frozen corpus of realistic workbooks (xmc/corpus.py): both round trips for every accepted form"""
+    from xmc import corpus
+
+    for cid, name, wb in corpus.forms():
+        yield {"g": "corpus", "name": name, "wb": wb}
+
+
+SPACE = GenSpace({"corpus": gen_corpus, "pathseq": gen_pathseq, "nest": gen_nest, "legacy": gen_legacy, "forms": gen_forms, "grid": gen_grid}, chunk=200)
 blocks = SPACE.blocks
 expand = SPACE.expand
 
